@@ -9,18 +9,21 @@ and the listener enumeration of `ScriptVM::ExecCmdMethodCommon`.
 namespace Morfuse.VMOps
 open F32
 
-/-- `Hash<ScriptVariable>::operator()`: only strings, integers and listeners can be keys -/
-def keyOf : Val → R Key
+/-- `Hash<ScriptVariable>::operator()`: only strings, integers and listeners can be keys; for
+    anything else `throw BadHashCodeValue(key.stringValue())` converts the key to a string first -/
+def keyOf (fx : Fixes) : Val → R Key
   | .str s => .ok (.str s)
   | .cstr s => .ok (.str s)
   | .int v => .ok (.int v)
   | .obj o => .ok (.obj o)
-  | _ => .err .badHashCodeValue
+  | v => (strOf fx v).bind fun _ => .err .badHashCodeValue
 
 /-- key of a stored entry (entries only ever hold hashable keys) -/
-def keyOfStored (v : Val) : Option Key :=
-  match keyOf v with
-  | .ok k => some k
+def keyOfStored : Val → Option Key
+  | .str s => some (.str s)
+  | .cstr s => some (.str s)
+  | .int v => some (.int v)
+  | .obj o => some (.obj o)
   | _ => none
 
 def lookup (items : List (Val × Val)) (k : Key) : Option Val :=
@@ -52,7 +55,7 @@ def evalAt (fx : Fixes) (a idx : Val) : Out :=
   | .obj _ =>
     (longOf fx idx).out a fun i => if i.toNat != 1 then .err .typeIndexOutOfRange .nil else .ok a
   | .arr items =>
-    (keyOf idx).out a fun k => .ok ((lookup items k).getD .nil)
+    (keyOf fx idx).out a fun k => .ok ((lookup items k).getD .nil)
   | .carr items =>
     (longOf fx idx).out a fun i =>
       match nth1 items i.toNat with
@@ -92,16 +95,17 @@ def setAtRef (fx : Fixes) (t idx v : Val) : Out :=
   | .vec x y z =>
     (int32Of fx idx).out t fun i =>
       if i > 2 then .err .typeIndexOutOfRange t
-      else if i < 0 then (if fx.negIndexStore then .err .typeIndexOutOfRange t else .ub .negIndexStore)
-      else (floatOf v).out t fun f =>
-        .ok (if i == 0 then .vec f y z else if i == 1 then .vec x f z else .vec x y f)
+      else if i < 0 && fx.negIndexStore then .err .typeIndexOutOfRange t
+      else (floatOf v).out t fun f =>      -- the right-hand side is evaluated before the store
+        if i < 0 then .ub .negIndexStore
+        else .ok (if i == 0 then .vec f y z else if i == 1 then .vec x f z else .vec x y f)
   | .ref _ => .ok t
   | .nil =>
     match v with
     | .nil => .ok (.arr [])
-    | v => (keyOf idx).out (.arr []) fun k => .ok (.arr (insert [] idx k v))
+    | v => (keyOf fx idx).out (.arr []) fun k => .ok (.arr (insert [] idx k v))
   | .arr items =>
-    (keyOf idx).out t fun k =>
+    (keyOf fx idx).out t fun k =>
       match v with
       | .nil => .ok (.arr (remove items k))
       | v => .ok (.arr (insert items idx k v))
@@ -116,8 +120,9 @@ where
   strSet (s : Bytes) : Out :=
     (int32Of fx idx).out t fun i =>
       if i ≥ (s.length : Int) then .err .typeIndexOutOfRange t
-      else if i < 0 then (if fx.negIndexStore then .err .typeIndexOutOfRange t else .ub .negIndexStore)
-      else (charOf v).out t fun c => .ok (.str (s.set i.toNat c))
+      else if i < 0 && fx.negIndexStore then .err .typeIndexOutOfRange t
+      else (charOf v).out t fun c =>       -- the right-hand side is evaluated before the store
+        if i < 0 then .ub .negIndexStore else .ok (.str (s.set i.toNat c))
 
 /-- `ScriptVariable::setArrayAt` as `OP_LOAD_ARRAY_VAR` calls it: `m_data.refValue->setArrayAtRef`.
     The emitter only ever leaves a reference in that stack slot. -/
@@ -132,9 +137,9 @@ def setRef (fx : Fixes) (r idx : Val) : Out :=
   match r with
   | .ref t =>
     match t with
-    | .nil => (keyOf idx).out (.arr []) fun _ => .ok2 (.arr [(idx, .nil)]) .nil
+    | .nil => (keyOf fx idx).out (.arr []) fun _ => .ok2 (.arr [(idx, .nil)]) .nil
     | .arr items =>
-      (keyOf idx).out t fun k =>
+      (keyOf fx idx).out t fun k =>
         match lookup items k with
         | some e => .ok2 t e
         | none => .ok2 (.arr (items ++ [(idx, .nil)])) .nil
@@ -150,7 +155,7 @@ def setRef (fx : Fixes) (r idx : Val) : Out :=
 def indexConst (fx : Fixes) (a idx : Val) : Out :=
   match a with
   | .nil => .ok .nil
-  | .arr items => (keyOf idx).out a fun k => .ok ((lookup items k).getD .nil)
+  | .arr items => (keyOf fx idx).out a fun k => .ok ((lookup items k).getD .nil)
   | .carr items =>
     (intOf fx idx).out a fun i =>
       match nth1 items i.toNat with
